@@ -62,6 +62,8 @@ var spyEmitters = []emitter{
 	{4, [32]byte{0xbb}},
 	// never named by a filter (the filter mask covers the four above): the zero values of both fields
 	{0, [32]byte{}},
+	// the governance emitter of the mainnet and testnet configurations lives on chain id 0 (filter bit 6)
+	{0, [32]byte{31: 4}},
 }
 
 func spyVAA(e int, seq int64) []byte {
@@ -146,7 +148,7 @@ func (spyHarness) Gen(seed uint64, prop, tier string) *simkit.Program {
 	careful := r.P(0.6)
 	nsub := 1 + r.Intn(4)
 	for i := 0; i < nsub; i++ {
-		add("sub", int64(r.Intn(64)), 0)
+		add("sub", int64(r.Intn(128)), 0)
 	}
 	n := 8 + r.Intn(40)
 	seq := int64(0)
@@ -168,7 +170,7 @@ func (spyHarness) Gen(seed uint64, prop, tier string) *simkit.Program {
 				pubsInStall++
 			}
 		case 1:
-			add("sub", int64(r.Intn(64)), 0)
+			add("sub", int64(r.Intn(128)), 0)
 		case 2:
 			add("stall", int64(r.Intn(6)), 0)
 			stalled++
@@ -312,6 +314,9 @@ func (h spyHarness) Exec(p *simkit.Program) *simkit.Result {
 						x.filters = append(x.filters, spyEmitters[e])
 					}
 				}
+				if st.A&64 != 0 && st.A&48 != 48 {
+					x.filters = append(x.filters, spyEmitters[5])
+				}
 				if st.A&16 != 0 && len(x.filters) > 0 {
 					x.filters = append(x.filters, x.filters[0]) // duplicate filter
 				}
@@ -386,12 +391,17 @@ func (h spyHarness) Exec(p *simkit.Program) *simkit.Result {
 					for _, x := range live() {
 						m := matches(x, em)
 						if st.C == 1 && (len(x.filters) > 0 || x.badFilt) {
-							// filters are evaluated on the decoded VAA; whether a filtered subscriber gets a
-							// VAA the decoder refuses is not stated - every unfiltered one must get it
-							if x.optional == nil {
-								x.optional = map[string]bool{}
+							// filters are evaluated on the decoded VAA; whether a filtered subscriber whose
+							// filter names this VAA's emitter gets a VAA the decoder refuses is not stated -
+							// every unfiltered one must get it, and nobody whose filters name other emitters may
+							if m > 0 {
+								if x.optional == nil {
+									x.optional = map[string]bool{}
+								}
+								x.optional[string(b)] = true
+							} else {
+								filteredOut++
 							}
-							x.optional[string(b)] = true
 							continue
 						}
 						if m > 0 {
